@@ -33,6 +33,7 @@ EnumContainers ==
          Un(<<PrimS("long"), PrimS("int")>>), Un(<<PrimS("null"), PrimS("int"), PrimS("string")>>),
          Un(<<PrimS("null"), E3>>), Un(<<PrimS("double")>>), Un(<<RecA, RecB>>), Un(<<RecB, RecA>>), Un(<<PrimS("null"), RecA>>),
          Un(<<PrimS("null"), PrimS("double")>>), Un(<<PrimS("null"), PrimS("bytes")>>), Un(<<PrimS("float"), PrimS("long")>>),
+         Un(<<PrimS("date"), PrimS("timestamp-millis")>>), Un(<<PrimS("timestamp-millis"), PrimS("date")>>),
          Mp(E3), Arr(PrimS("float")), Arr(PrimS("date")),
          Arr(Un(<<PrimS("null"), PrimS("long")>>)), Mp(Arr(PrimS("int"))), Arr(Arr(PrimS("long"))) }
 
@@ -54,7 +55,17 @@ EnumRecords ==
          R_(<<F("a", PrimS("int")), F("b", PrimS("string")), FDf("c", PrimS("long"), JInt(7))>>),
          R_(<<F("a", Mp(PrimS("string")))>>), R_(<<F("a", Arr(PrimS("long")))>>), R_(<<F("a", Arr(PrimS("int")))>>),
          R_(<<F("a", Un(<<PrimS("null"), PrimS("long")>>))>>),
-         R_(<<F("a", E3), F("b", E3)>>) }                                       \* definition + (rendered) reference
+         R_(<<F("a", E3), F("b", E3)>>),                                        \* definition + (rendered) reference
+         \* sibling positions with logical types: the second comparison must not inherit the verdict of the first
+         R_(<<F("a", PrimS("date")), F("b", PrimS("timestamp-micros"))>>),
+         R_(<<F("a", PrimS("date")), F("b", PrimS("time-millis"))>>),
+         R_(<<F("a", PrimS("date")), F("b", PrimS("date"))>>),
+         R_(<<F("a", PrimS("time-millis")), F("b", PrimS("date"))>>),
+         R_(<<F("a", Mp(PrimS("date"))), F("b", Arr(PrimS("timestamp-micros")))>>),
+         R_(<<F("a", Mp(PrimS("date"))), F("b", Arr(PrimS("time-millis")))>>),
+         \* enum-typed field with a field default, enum without default / fewer symbols
+         R_(<<FDf("a", E3, JStr("A", <<65>>)), F("b", PrimS("string"))>>),
+         R_(<<FDf("a", En("ns.E", <<"A", "B">>), JStr("A", <<65>>)), F("b", PrimS("string"))>>) }
 
 (* one named type used in two fields (definition + reference), in both orders; recursive shapes; pairs whose      *)
 (* referenced definitions differ although every reference has the same name                                        *)
@@ -89,7 +100,7 @@ EnumQuick == {PrimS(k) : k \in {"int", "long", "double", "string", "bytes", "dat
              \cup {Fx("ns.F", 2), E3, En("ns.E", <<"A", "B">>), En2("ns.E", <<"B", "A">>, "A"),
                    Arr(PrimS("int")), Arr(PrimS("long")), Mp(PrimS("string")),
                    Un(<<PrimS("null"), PrimS("int")>>), Un(<<PrimS("long"), PrimS("int")>>), Un(<<PrimS("string"), PrimS("bytes")>>),
-                   Un(<<RecA, RecB>>)}
+                   Un(<<RecA, RecB>>), Un(<<PrimS("date"), PrimS("timestamp-millis")>>)}
              \cup {s \in EnumRecords : Len(s.fields) # 1 \/ s.fields[1].type.k \in {"int", "long", "union"}}
              \cup EnumNamed
 Schemas == IF EnumTier = "quick" THEN EnumQuick ELSE EnumAll
